@@ -12,8 +12,9 @@ use ureq_proto::Error;
 
 pub struct P;
 
-const NAMES: [&str; 16] = [
-    "x-null", "X-Null", "accept", "X-A", "x-b", "User-Agent", "x-a", "Accept-Encoding", "x-quite-long-header-name-to-make-lines-differ", "cookie", "connection", "X-B", "if-none-match", "x-c", "te", "cache-control",
+const NAMES: [&str; 19] = [
+    // (one-letter names: with an empty value the whole line is five bytes)
+    "x", "y", "Z", "x-null", "X-Null", "accept", "X-A", "x-b", "User-Agent", "x-a", "Accept-Encoding", "x-quite-long-header-name-to-make-lines-differ", "cookie", "connection", "X-B", "if-none-match", "x-c", "te", "cache-control",
 ];
 
 fn rand_value(rng: &mut Rng, tag: &str) -> Vec<u8> {
